@@ -331,6 +331,11 @@ def run(ctx):
             "redun/cli.py",
             h.lineno,
         )
+    # ---- C32.9 (the obligations of C11.2, which this property depends on as well) ----
+    from ..report import BorrowCtx
+    from . import C11 as _borrowed_C11
+
+    _borrowed_C11.run(BorrowCtx(ctx, {"C11.2": "C32.9"}))
 
 
 def _is_scope_expr(e, holders=("job_options",)) -> bool:
